@@ -1,5 +1,6 @@
 # core.py — build, run, merge, minimise, evidence. Python stdlib only.
 import array, concurrent.futures as cf, glob, hashlib, json, os, re, shutil, subprocess, sys, time
+from . import once
 
 VERIF = os.path.dirname(os.path.dirname(os.path.abspath(__file__)))
 REPO = os.environ.get('VERIF_REPO', '/repo')
@@ -93,6 +94,9 @@ def build_units(pid, units, want_fuzz, want_enum, log):
         ud = os.path.join(bdir, u.name)
         os.makedirs(ud)
         write_literals(u, os.path.join(ud, 'vp_literals.h'))
+        findings, nnames, nmac = once.scan_unit(VERIF, REPO, u)
+        once.write_header(os.path.join(ud, 'vp_once.h'), findings, nnames, nmac)
+        u.once_scanned = nnames
         variants = [('san', SAN + [u.opt, '-g'])]
         if want_fuzz and u.fuzz:
             variants.append(('fz', SAN + [u.opt, '-g', '-fsanitize=fuzzer-no-link']))
